@@ -7,7 +7,8 @@ import Amgcl.Properties.C01
 **What is theorem here.**  `amgcl::mpi::make_solver` runs the serial Krylov template with rank-local vectors, a
 `distributed_matrix`, the distributed preconditioner and `mpi::inner_product`.  `Model/Lockstep.lean` fixes the
 interface through which a solver touches its data as an instruction set (axpby, axpbypcz, copy, clear, spmv,
-residual, preconditioner, inner product, arbitrary rank-local scalar computations, `if`/`while` on scalars) with a
+residual, preconditioner, lin_comb, inner product, arbitrary rank-local scalar computations on a scalar state of any
+type, vector operands selected by the rank's own scalars, `if`/`while`/`for` on scalars) with a
 serial semantics `run` and a distributed semantics `drun` in which **every rank holds its own copy of every
 scalar** and a branch on which two ranks disagree blocks the run.
 
@@ -35,28 +36,29 @@ every explored input by predicates
 on the gathered outputs (aggregates form a global partition; `A_c = s·R·A·P`, exactly on dyadic data; `R = Pᵀ`;
 `A x = f` for the consolidated direct solver), together with bitwise equality of `(iters, resid)` across ranks and
 the true residual of the gathered solution.  Convergence per combination is a labelled test.  The other Krylov
-methods are covered by `lockstep_refines_serial` once written in the instruction set (same script as CG);
-only CG is linked to its C01 model here.  IEEE rounding is not modelled: in `double` the ranks agree bitwise because
+methods (Richardson, BiCGStab, GMRES, FGMRES, preonly) are in `Properties/C12c.lean`: each is written in the
+instruction set, proved equal to its C01/C05/C15 model, and gets `lockstep_S_refines_serial` / `lockstep_S_truthful`;
+LGMRES, IDR(s), BiCGStab(L) are not yet written in the set.  IEEE rounding is not modelled: in `double` the ranks agree bitwise because
 `MPI_Allreduce` delivers one value to all ranks (checked by the harness), not because of these theorems.
 -/
 namespace Amgcl.C12
 open Amgcl Amgcl.Dist Amgcl.Lockstep
 
 section generic
-variable {K : Type} [CommRing K] [DecidableEq K]
+variable {K : Type} [CommRing K] [DecidableEq K] {σ : Type}
 
 /-- **`lockstep_refines_serial`.**  Start every rank with its part of the serial vectors and a copy of the serial
 scalars.  Then for every program the distributed run terminates without blocking on a branch, and in the final
 state every rank holds (a) exactly the serial scalars — in particular the same iteration counter and the same
 reported residual, which is therefore the residual computed from GLOBAL inner products — and (b) its part of
 every serial vector. -/
-theorem lockstep_refines_serial (A : CRS K) (P : Vec K → Vec K) (C : DCtx K) (hS : Setup A P C) (fuel : Nat)
-    (prog : Prog K) (s : St K) (hsize : ∀ v, (s.vec v).size = C.part.sum) :
-    ∃ ds', drun C fuel prog (distribute C.part s) = some ds' ∧
-      ds'.scal = List.replicate C.part.length (run A P (innerProductSerial C.conj) fuel prog s).scal ∧
-      ∀ v, ds'.vec v = splitVec ((run A P (innerProductSerial C.conj) fuel prog s).vec v) C.part ∧
-           concatVec (ds'.vec v) = (run A P (innerProductSerial C.conj) fuel prog s).vec v := by
-  obtain ⟨ds', h1, h2, h3⟩ := run_sim A P C hS fuel prog _ s (rel_distribute C.part s hsize)
+theorem lockstep_refines_serial (A : CRS K) (P : Vec K → Vec K) (C : DCtx K) (hS : Setup A P C)
+    (prog : Prog K σ) (s : St K σ) (hsize : ∀ v, (s.vec v).size = C.part.sum) :
+    ∃ ds', drun C prog (distribute C.part s) = some ds' ∧
+      (∀ r, r < C.part.length → ds'.scal r = (run A P (innerProductSerial C.conj) prog s).scal) ∧
+      ∀ v, ds'.vec v = splitVec ((run A P (innerProductSerial C.conj) prog s).vec v) C.part ∧
+           concatVec (ds'.vec v) = (run A P (innerProductSerial C.conj) prog s).vec v := by
+  obtain ⟨ds', h1, h2, h3⟩ := run_sim A P C hS prog _ s (rel_distribute C.part s hsize)
   refine ⟨ds', h1, h2, fun v => ⟨(h3 v).2, ?_⟩⟩
   rw [(h3 v).2]
   exact concat_splitVec _ _ (h3 v).1
@@ -73,22 +75,22 @@ theorem lockstep_cg_refines_serial (A : CRS K) (P : Vec K → Vec K) (C : DCtx K
     (prm : Params K) (sqrt : K → K) (eps : K) (ws : Solver.CG.Work K) (f x0 : Vec K)
     (hf : f.size = C.part.sum) (hx : x0.size = C.part.sum) (hr : ws.r.size = C.part.sum) (hs : ws.s.size = C.part.sum)
     (hp : ws.p.size = C.part.sum) (hq : ws.q.size = C.part.sum) :
-    ∃ ds', drun C prm.maxiter (Lockstep.CG.prog prm sqrt eps) (distribute C.part (Lockstep.CG.initState ws f x0)) = some ds' ∧
+    ∃ ds', drun C (Lockstep.CG.prog prm sqrt eps) (distribute C.part (Lockstep.CG.initState ws f x0)) = some ds' ∧
       ds'.vec Lockstep.CG.vX
         = splitVec (Solver.CG.run prm (innerProductSerial C.conj) sqrt eps A P ws f x0).x C.part ∧
       ∃ (n : Nat) (res : K),
         (Solver.CG.run prm (innerProductSerial C.conj) sqrt eps A P ws f x0).out = .ok (n, res) ∧
         ∀ r, r < C.part.length →
-          renv ds'.scal r Lockstep.CG.sOut = res ∧ renv ds'.scal r Lockstep.CG.sCnt = (n : K) := by
+          ds'.scal r Lockstep.CG.sOut = res ∧ ds'.scal r Lockstep.CG.sCnt = (n : K) := by
   have hsize : ∀ v, ((Lockstep.CG.initState ws f x0).vec v).size = C.part.sum := by
     intro v
     unfold Lockstep.CG.initState
     simp only
     split_ifs <;> assumption
-  obtain ⟨ds', h1, h2, h3⟩ := lockstep_refines_serial A P C hS prm.maxiter (Lockstep.CG.prog prm sqrt eps) _ hsize
+  obtain ⟨ds', h1, h2, h3⟩ := lockstep_refines_serial A P C hS (Lockstep.CG.prog prm sqrt eps) _ hsize
   obtain ⟨e1, _, n, e3, e4⟩ := Lockstep.CG.cg_prog_eq_run prm (innerProductSerial C.conj) sqrt eps A P ws f x0
   refine ⟨ds', h1, by rw [(h3 _).1, e1], n, _, e3, fun r hr => ?_⟩
-  rw [h2, renv_replicate _ _ r hr]
+  rw [h2 r hr]
   exact ⟨rfl, e4⟩
 
 /-- **… and the reported residual is the true global one**: whenever the serial model returns `(it, res, x, w)`, the
@@ -146,7 +148,7 @@ theorem setup_diag_precond {K : Type} [CommRing K] [DecidableEq K] (A : CRS K) (
     pd := fun g hg => (diag_precond_refines M p hM g hg).1 }
 
 /-- the CG refinement instantiated on `exA` (3 ranks, the middle one empty): all hypotheses are dischargeable -/
-example : ∃ ds', drun exC 3 (Lockstep.CG.prog ⟨3, 0, 0, false⟩ id 0)
+example : ∃ ds', drun exC (Lockstep.CG.prog ⟨3, 0, 0, false⟩ id 0)
       (distribute exC.part (Lockstep.CG.initState (Solver.CG.Work.fresh 3) #[1, 2, 3] #[0, 0, 0])) = some ds' ∧
     ds'.vec Lockstep.CG.vX
       = splitVec (Solver.CG.run ⟨3, 0, 0, false⟩ (innerProductSerial id) id 0 exA id (Solver.CG.Work.fresh 3)
